@@ -65,7 +65,8 @@ def mh_params(draw):
         rows = draw(st.integers(1, 4))
         m = []
         for _ in range(rows):
-            row = [draw(st.sampled_from([0.0, 0.1, 0.25, 0.5, 1.0])) for _ in alpha]
+            # (also weights below the chooser's resolution of 1e-5: positive mass, a legal distribution)
+            row = [draw(st.sampled_from([0.0, 0.1, 0.25, 0.5, 1.0, 1e-6, 3e-7])) for _ in alpha]
             if sum(row) == 0:
                 row[draw(st.integers(0, len(alpha) - 1))] = 0.5
             m.append(row)
